@@ -48,8 +48,112 @@ IDX = ["idx1", "idx2", "idx3"]
 WRAPPERS = ("dbal_fast_gaussian_scoring_heteroscedastic", "dbal_fast_gaussian_scoring_homoscedastic")
 
 
-def kernel_atomizer(varnames):
+def triple_member(f, e, depth=0):
+    """which member (0, 1, 2) of the sampled triples an index expression denotes - whatever it is called:
+         idx1, idx2, idx3 = zip(*triples) / np.array(triples).T          -> position of the name in the unpacking
+         idxK = np.array(idxK)  (re-binding / alias)                      -> same member
+         T[:, k]  with T = np.column_stack([m0, m1, m2]) / np.array(list of triples)  -> member k (column k)
+         T[k]     with T = np.array(list of triples).T / a tuple of the members        -> member k
+       None if the expression is not recognised"""
+    if depth > 8:
+        return None
+    defs = {}
+    for n in walk_own(f.node):
+        if isinstance(n, ast.Assign) and len(n.targets) == 1:
+            t = n.targets[0]
+            if isinstance(t, ast.Name):
+                defs.setdefault(t.id, []).append(("val", n.value))
+            elif isinstance(t, (ast.Tuple, ast.List)) and all(isinstance(x, ast.Name) for x in t.elts):
+                for k, x in enumerate(t.elts):
+                    defs.setdefault(x.id, []).append(("unpack", k, len(t.elts), n.value))
+
+    def is_triple_source(v):
+        """an iterable whose 3 items are the member vectors: zip(*rows) / np.array(rows).T / rows.T"""
+        t = U(v).replace(" ", "")
+        if isinstance(v, ast.Call) and U(v.func) == "zip" and len(v.args) == 1 and isinstance(v.args[0], ast.Starred):
+            return True
+        if isinstance(v, ast.Attribute) and v.attr == "T":
+            return True
+        if isinstance(v, ast.Call) and call_name(v) in ("np.transpose",):
+            return True
+        return False
+
+    def strip(v):
+        while isinstance(v, ast.Call) and call_name(v) in ("np.array", "np.asarray", "list", "tuple", "np.asanyarray") and v.args:
+            v = v.args[0]
+        return v
+    e = strip(e)
+    if isinstance(e, ast.Name):
+        members = set()
+        for d in defs.get(e.id, []):
+            if d[0] == "unpack" and d[2] == 3 and is_triple_source(d[3]):
+                members.add(d[1])
+            elif d[0] == "unpack" and d[2] == 3:
+                src = strip(d[3])
+                if isinstance(src, ast.Name) and len(defs.get(src.id, [])) == 1 and defs[src.id][0][0] == "val":
+                    v = defs[src.id][0][1]
+                    if isinstance(v, (ast.Tuple, ast.List)) and len(v.elts) == 3:
+                        members.add(triple_member(f, v.elts[d[1]], depth + 1))
+                    elif is_triple_source(v):
+                        members.add(d[1])
+                    else:
+                        members.add(None)
+                else:
+                    members.add(None)
+            elif d[0] == "val":
+                v = strip(d[1])
+                if isinstance(v, ast.Name) and v.id == e.id:
+                    continue            # idx1 = np.array(idx1)
+                members.add(triple_member(f, v, depth + 1))
+            else:
+                members.add(None)
+        return members.pop() if len(members) == 1 else None
+    if isinstance(e, ast.Subscript):
+        base = strip(e.value)
+        sl = e.slice
+        col = None
+        row = None
+        if isinstance(sl, ast.Tuple) and len(sl.elts) == 2 and U(sl.elts[0]) == ":" and isinstance(sl.elts[1], ast.Constant) and isinstance(sl.elts[1].value, int):
+            col = sl.elts[1].value
+        elif isinstance(sl, ast.Constant) and isinstance(sl.value, int):
+            row = sl.value
+        else:
+            return None
+        if isinstance(base, ast.Name):
+            ds = defs.get(base.id, [])
+            if len(ds) != 1 or ds[0][0] != "val":
+                return None
+            base = strip(ds[0][1])
+        transposed = False
+        while (isinstance(base, ast.Attribute) and base.attr == "T") or (isinstance(base, ast.Call) and call_name(base) == "np.transpose" and base.args):
+            base = strip(base.value if isinstance(base, ast.Attribute) else base.args[0])
+            transposed = not transposed
+            if isinstance(base, ast.Name) and len(defs.get(base.id, [])) == 1 and defs[base.id][0][0] == "val":
+                base = strip(defs[base.id][0][1])
+        k = col if not transposed else row
+        kr = row if not transposed else col
+        if isinstance(base, ast.Call) and call_name(base) == "np.column_stack" and base.args and isinstance(base.args[0], (ast.List, ast.Tuple)) and len(base.args[0].elts) == 3:
+            return triple_member(f, base.args[0].elts[k], depth + 1) if k is not None and 0 <= k < 3 else None
+        if isinstance(base, (ast.Tuple, ast.List)) and len(base.elts) == 3 and kr is not None and 0 <= kr < 3:
+            return triple_member(f, base.elts[kr], depth + 1)
+        # a list / array of unranked triples: rows are triples, column k is member k
+        if isinstance(base, (ast.ListComp, ast.GeneratorExp)) and any(isinstance(c, ast.Call) and U(c.func) in ("get_combination_at_sorted_index", "generate_combination_at_sorted_index") for c in ast.walk(base)):
+            return k if k is not None and 0 <= k < 3 else None
+        if isinstance(base, ast.Name):
+            return None
+    return None
+
+
+def kernel_atomizer(varnames, f=None, perm=None):
     pv, pred, mask, dist = varnames
+
+    def label(x):
+        """idx1 / idx2 / idx3 for an index expression over the theta axis"""
+        m = triple_member(f, x) if f is not None else None
+        if m is None:
+            return None
+        lab = IDX[m]
+        return perm.get(lab, lab) if perm else lab
 
     def at(e, N):
         if isinstance(e, ast.Subscript):
@@ -58,13 +162,17 @@ def kernel_atomizer(varnames):
             elts = sl.elts if isinstance(sl, ast.Tuple) else [sl]
             names = [U(x) for x in elts]
             if base in (pv, pred, mask) and len(names) == 3 and names[0] == ":" and names[2] == ":":
-                if names[1] not in IDX:
-                    raise AnalysisError(f"kernel indexes `{base}` by `{names[1]}` on the theta axis (expected one of {IDX})")
+                lab = label(elts[1])
+                if lab is None:
+                    raise AnalysisError(f"kernel indexes `{base}` by `{names[1]}` on the theta axis, which is not recognisably one member of the sampled triples")
                 if base == mask:
                     return Poly.atom(("M",))          # lemma: padding extends the experiment axis only -> mask is theta-independent
-                return Poly.atom((base, names[1]))
+                return Poly.atom((base, lab))
             if base == dist and len(names) == 2:
-                return Poly.atom(("D",) + tuple(sorted(names)))   # unordered pair: the distance matrix is symmetric
+                labs = [label(x) for x in elts]
+                if None in labs:
+                    raise AnalysisError(f"kernel indexes the distance matrix by `{names}`, not by two members of the sampled triples")
+                return Poly.atom(("D",) + tuple(sorted(labs)))   # unordered pair: the distance matrix is symmetric
             if len(names) == 2 and "np.newaxis" in names or "None" in names:
                 return N.n(e.value)                                # broadcasting helper
         if isinstance(e, ast.Call) and call_name(e) == "np.log" and len(e.args) == 1:
@@ -94,14 +202,17 @@ def kernel_names(f):
 def kernel_form(ctx, perm=None):
     f = ctx.fn(KERNEL)
     pv, pred, mask, dist, env = kernel_names(f)
-    keep = set(IDX) | {pv, mask, "n_plates", "n_thetas", "max_experiments_per_plate", "unpacked_indices", "n_combos", "n_theta_combinations"}
+    # names that denote triple members (or the arrays holding them) are kept as names: the atomizer reads them by role
+    member_names = {k for k in list(env) + [t.id for n in walk_own(f.node) if isinstance(n, ast.Assign) for tt in n.targets for t in ast.walk(tt) if isinstance(t, ast.Name)]
+                    if triple_member(f, ast.Name(id=k, ctx=ast.Load())) is not None}
+    holders = {n.value.id for n in walk_own(f.node) if isinstance(n, ast.Subscript) and isinstance(n.value, ast.Name)
+               and triple_member(f, n) is not None}
+    keep = set(IDX) | member_names | holders | {pv, mask, "n_plates", "n_thetas", "max_experiments_per_plate", "unpacked_indices", "n_combos", "n_theta_combinations"}
     env = {k: v for k, v in env.items() if k not in keep}
     rets = returns(f.node)
     ctx.need(len(rets) == 1, f"{f.site()}: single return expected")
     e = inline(rets[0].value, env)
-    if perm:
-        e = renamed(e, perm)
-    N = Norm(atomizer=kernel_atomizer((pv, pred, mask, dist)), strict=True)
+    N = Norm(atomizer=kernel_atomizer((pv, pred, mask, dist), f, perm), strict=True)
     return N.n(e), f
 
 
@@ -143,7 +254,7 @@ def r2(ctx):
         roles = {}
         for role in ("predictions", "variances"):
             v = kw.get(role)
-            src = env.get(U(v)) if v is not None else None
+            src = (v if v in pcs else env.get(U(v))) if v is not None else None
             roles[role] = src if src in pcs else None
         ok = roles["predictions"] is not None and roles["variances"] is not None
         detail = ""
@@ -292,7 +403,11 @@ def r5(ctx):
     ctx.need(len(lp) == 1, f"{f.site()}: per-subgroup loop not found")
     loop = lp[0]
     sg = U(loop.target)
-    lenv = {n.targets[0].id: n.value for n in loop.body if isinstance(n, ast.Assign) and isinstance(n.targets[0], ast.Name)}
+    lcount = {}
+    for n in walk_own(loop):
+        if isinstance(n, ast.Assign) and len(n.targets) == 1 and isinstance(n.targets[0], ast.Name):
+            lcount[n.targets[0].id] = lcount.get(n.targets[0].id, 0) + 1
+    lenv = {n.targets[0].id: n.value for n in walk_own(loop) if isinstance(n, ast.Assign) and len(n.targets) == 1 and isinstance(n.targets[0], ast.Name) and lcount[n.targets[0].id] == 1}
     kc = [c for c in calls(loop) if U(c.func) == KERNEL.split(".")[-1]]
     via_wrapper = False
     if not kc:
@@ -366,8 +481,12 @@ def r6(ctx):
               f"repeated triples bias the estimate / not all triples are used when the budget covers them")
     un = [x for x in calls(f.node) if U(x.func) in ("get_combination_at_sorted_index", "generate_combination_at_sorted_index")]
     ok = len(un) == 1 and [U(inline(a, env)) for a in un[0].args[1:]] == [nt, "3"]
-    lc = [n for n in walk_own(f.node) if isinstance(n, ast.ListComp) and un and un[0] in list(ast.walk(n))]
-    ok = ok and len(lc) == 1 and U(lc[0].generators[0].iter) in [k for k, v in env.items() if v is c] and U(un[0].args[0]) == U(lc[0].generators[0].target)
+    lc = [n for n in walk_own(f.node) if isinstance(n, (ast.ListComp, ast.GeneratorExp)) and un and un[0] in list(ast.walk(n))]
+    # innermost comprehension holding the unranking call: one unranked triple per drawn index
+    lc = sorted(lc, key=lambda n: len(list(ast.walk(n))))[:1]
+    drawn = [k for k, v in env.items() if v is c]
+    ok = ok and len(lc) == 1 and len(lc[0].generators) == 1 and not lc[0].generators[0].ifs and (U(lc[0].generators[0].iter) in drawn or lc[0].generators[0].iter is c) \
+        and U(un[0].args[0]) == U(lc[0].generators[0].target)
     ctx.check("R6", f"{f.site()}::unranked-with-same-n", ok, f"each drawn index is unranked with (n={nt}, k=3)", "the drawn indices are not unranked one by one with the same n and k = 3")
 
 
